@@ -26,7 +26,7 @@ PRIMITIV_C_STATUS primitivCreateParameterWithValues(
   *newobj = to_c_ptr(new Parameter(
         *to_cpp_ptr(shape),
         std::vector<float>(value, value + n),
-        *to_cpp_ptr(device)));
+        to_cpp_ptr(device)));
   return PRIMITIV_C_OK;
 } PRIMITIV_C_HANDLE_EXCEPTIONS
 
@@ -37,7 +37,7 @@ PRIMITIV_C_STATUS primitivCreateParameterWithInitializer(
   PRIMITIV_C_CHECK_NOT_NULL(initializer);
   PRIMITIV_C_CHECK_NOT_NULL(newobj);
   *newobj = to_c_ptr(new Parameter(
-      *to_cpp_ptr(shape), *to_cpp_ptr(initializer), *to_cpp_ptr(device)));
+      *to_cpp_ptr(shape), *to_cpp_ptr(initializer), to_cpp_ptr(device)));
   return PRIMITIV_C_OK;
 } PRIMITIV_C_HANDLE_EXCEPTIONS
 
@@ -56,7 +56,7 @@ PRIMITIV_C_STATUS primitivInitializeParameterWithValues(
   to_cpp_ptr(parameter)->init(
       *to_cpp_ptr(shape),
       std::vector<float>(value, value + n),
-      *to_cpp_ptr(device));
+      to_cpp_ptr(device));
   return PRIMITIV_C_OK;
 } PRIMITIV_C_HANDLE_EXCEPTIONS
 
@@ -69,7 +69,7 @@ PRIMITIV_C_STATUS primitivInitializeParameterWithInitializer(
   to_cpp_ptr(parameter)->init(
       *to_cpp_ptr(shape),
       *to_cpp_ptr(initializer),
-      *to_cpp_ptr(device));
+      to_cpp_ptr(device));
   return PRIMITIV_C_OK;
 } PRIMITIV_C_HANDLE_EXCEPTIONS
 
@@ -80,7 +80,7 @@ PRIMITIV_C_STATUS primitivLoadParameter(
     primitivDevice_t *device) try {
   PRIMITIV_C_CHECK_NOT_NULL(parameter);
   PRIMITIV_C_CHECK_NOT_NULL(path);
-  to_cpp_ptr(parameter)->load(path, with_stats, *to_cpp_ptr(device));
+  to_cpp_ptr(parameter)->load(path, with_stats, to_cpp_ptr(device));
   return PRIMITIV_C_OK;
 } PRIMITIV_C_HANDLE_EXCEPTIONS
 
